@@ -93,6 +93,18 @@ macro_rules! dispatch {
                 let $p = &props::stream::C10;
                 $body
             }
+            "C10r" => {
+                let $p = &props::rawstream::RawStream { marathon: false };
+                $body
+            }
+            "C02m" => {
+                let $p = &props::rawstream::RawStream { marathon: true };
+                $body
+            }
+            "C01g" => {
+                let $p = &props::giant::C01g;
+                $body
+            }
             "C11" => {
                 let $p = &props::writer::WriterProp { c14: false };
                 $body
@@ -124,12 +136,12 @@ macro_rules! dispatch {
 /// Components that make up each manifest property.
 fn components(property: &str) -> Vec<&'static str> {
     match property {
-        "C01" => vec!["C01"],
+        "C01" => vec!["C01", "C01g"],
         "C04" => vec!["C04"],
-        "C02" => vec!["C02"],
+        "C02" => vec!["C02", "C02m"],
         "C08" => vec!["C08"],
         "C09" => vec!["C09p", "C09r"],
-        "C10" => vec!["C10"],
+        "C10" => vec!["C10", "C10r"],
         "C11" => vec!["C11"],
         "C13" => vec!["C13", "C13t"],
         "C16" => vec!["C16", "C16t"],
@@ -920,12 +932,12 @@ fn case_file<P: Prop>(
 /// over the results of API calls), so a hang is reported as a violation of the component's property.
 fn hang_check(comp: &str) -> Option<&'static str> {
     match comp {
-        "C01" => Some("C01.hang"),
-        "C02" => Some("C02.hang"),
+        "C01" | "C01g" => Some("C01.hang"),
+        "C02" | "C02m" => Some("C02.hang"),
         "C04" => Some("C04.hang"),
         "C08" => Some("C08.hang"),
         "C09p" | "C09r" => Some("C09.hang"),
-        "C10" => Some("C10.hang"),
+        "C10" | "C10r" => Some("C10.hang"),
         "C11" => Some("C11.hang"),
         "C13" | "C13t" => Some("C13.hang"),
         "C14r" | "C14w" | "C14s" => Some("C14.hang"),
